@@ -354,7 +354,9 @@ func runShard(c *Check, bin, work, tier string, shard, n int, replay string, bud
 	res.rep = &rep
 	if rep.HarnessErr != "" {
 		res.err = fmt.Errorf("shard %d: harness error: %s", shard, rep.HarnessErr)
-	} else if werr != nil {
+	} else if werr != nil && !c.Race {
+		// (in race builds the testing package fails the test whenever the detector reported something: the harness
+		// has turned those reports into violations already)
 		res.err = fmt.Errorf("shard %d: process failed after writing its report: %v", shard, werr)
 	}
 	return res
